@@ -1837,7 +1837,14 @@ class Fxp():
                          np.less: '__gt__', np.less_equal: '__ge__', np.greater: '__lt__', np.greater_equal: '__le__',
                          np.equal: '__eq__', np.not_equal: '__ne__'}
 
+    _comparison_ufuncs = (np.less, np.less_equal, np.greater, np.greater_equal, np.equal, np.not_equal)
+
     def __array_ufunc__(self, ufunc, method, *inputs, **kwargs):
+        if ufunc in self._comparison_ufuncs:
+            # comparisons called by name (np.less(x, y), np.equal.outer(...)) compare values too, in both settings of array_op_method
+            vals = [arg.get_val() if isinstance(arg, Fxp) else arg for arg in inputs]
+            return getattr(ufunc, method)(*vals, **kwargs)
+
         if method == '__call__':
             if ufunc in self._reflected_ufuncs and len(inputs) == 2 and not kwargs and inputs[1] is self and \
                 not isinstance(inputs[0], Fxp):
